@@ -95,44 +95,44 @@ func ruleShardOwner(r *core.Run, id string) {
 	}
 	n := 0
 	for _, f := range r.P.SortedFuncs(r.ConsensusFuncs()) {
-		if r.P.IsGenerated(f) || len(f.Blocks) == 0 {
-			continue
+		if r.P.IsGenerated(f) || len(f.Blocks) == 0 || r.P.Transparent(f) {
+			continue // helpers outside the vocabulary are seen through the frames of the functions they belong to
 		}
 		k := 0
-		for _, c := range callsIn(r, f, "order/keeper.Keeper.AppendShard") {
-			args := c.Common().Args
+		for _, dc := range deepCalls(r, f, "order/keeper.Keeper.AppendShard") {
+			args := dc.Call.Common().Args
 			rec := args[len(args)-1]
-			u, ok := rec.(*ssa.UnOp)
-			if !ok {
-				continue
-			}
-			al, ok := u.X.(*ssa.Alloc)
-			if !ok {
-				continue
-			}
 			n++
 			k++
 			key := core.Key(id, r.KeyName(f), fmt.Sprintf("AppendShard#%d OrderId", k))
-			res := r.Resolver(f)
+			// the OrderId of the record, in the vocabulary of f: a field store on the local record, or the field of
+			// the record's term (a literal built by a constructor helper, a record handed on by pointer)
 			val := ""
-			for _, ref := range *al.Referrers() {
-				fa, ok := ref.(*ssa.FieldAddr)
-				if !ok || fieldNameT(fa.X.Type(), fa.Field) != "OrderId" {
-					continue
-				}
-				for _, rr := range *fa.Referrers() {
-					if st, ok := rr.(*ssa.Store); ok && st.Addr == ssa.Value(fa) {
-						val = normT(res.Of(st.Val).String())
+			g := dc.Fr.Fn
+			res := r.Resolver(g)
+			if u, ok := rec.(*ssa.UnOp); ok {
+				if al, ok := u.X.(*ssa.Alloc); ok {
+					for _, ref := range *al.Referrers() {
+						if fa, ok := ref.(*ssa.FieldAddr); ok && fieldNameT(fa.X.Type(), fa.Field) == "OrderId" {
+							for _, rr := range *fa.Referrers() {
+								if st, ok := rr.(*ssa.Store); ok && st.Addr == ssa.Value(fa) {
+									val = normT(dc.Fr.T(r, st.Val))
+								}
+							}
+						}
+					}
+					if val == "" {
+						for _, ref := range *al.Referrers() {
+							if st, ok := ref.(*ssa.Store); ok && st.Addr == ssa.Value(al) {
+								val = normT(dc.Fr.Sub(term.FieldOf(res.Of(st.Val), "OrderId").String()))
+							}
+						}
 					}
 				}
 			}
 			if val == "" {
-				// the record is built elsewhere (a constructor helper, a literal assigned whole)
-				for _, ref := range *al.Referrers() {
-					if st, ok := ref.(*ssa.Store); ok && st.Addr == ssa.Value(al) {
-						val = normT(term.FieldOf(res.Of(st.Val), "OrderId").String())
-					}
-				}
+				t := strings.TrimLeft(normT(dc.Fr.T(r, rec)), "*&~")
+				val = normT(term.ReduceLiteralFields(t + ".OrderId"))
 			}
 			okv := false
 			for i, p := range f.Params {
@@ -141,9 +141,9 @@ func ruleShardOwner(r *core.Run, id string) {
 				}
 			}
 			if okv {
-				r.Discharge(id, key, r.P.Pos(c.Pos()), "the new shard names the order it is created for ("+val+")")
+				r.Discharge(id, key, r.P.Pos(dc.Call.Pos()), "the new shard names the order it is created for ("+val+")")
 			} else {
-				r.Violate(id, key, r.P.Pos(c.Pos()), fmt.Sprintf("a shard is created with OrderId = %s, which is not the Id of the order the creating function was handed (the order whose Shards the caller extends with the new id): the shard then names one order while only another one lists it", val))
+				r.Violate(id, key, r.P.Pos(dc.Call.Pos()), fmt.Sprintf("a shard is created with OrderId = %s, which is not the Id of the order the creating function was handed (the order whose Shards the caller extends with the new id): the shard then names one order while only another one lists it", shorten(val)))
 			}
 		}
 	}
